@@ -1,0 +1,17 @@
+//go:build verif
+
+package upstream
+
+// Add-only exports of the unexported address helpers for the C17 correspondence check.
+
+func VerifTryTrimIpv6Brackets(s string) string { return tryTrimIpv6Brackets(s) }
+
+func VerifGetDialAddr(urlAddr, dialAddr, defaultPort string) string {
+	return getDialAddr(urlAddr, dialAddr, defaultPort)
+}
+
+func VerifTryRemovePort(s string) string { return tryRemovePort(s) }
+
+func VerifTrySplitHostPort(s string) (string, string) { return trySplitHostPort(s) }
+
+func VerifDialNetworkTcpOrUnix(dialAddr string) string { return dialNetworkTcpOrUnix(dialAddr) }
